@@ -2102,7 +2102,8 @@ parseHandshake:
     that are not errors.  These are checked here.
  */
     if (hsType != ssl->hsState &&
-        (hsType != SSL_HS_CLIENT_HELLO || ssl->hsState != SSL_HS_DONE))
+        (hsType != SSL_HS_CLIENT_HELLO || ssl->hsState != SSL_HS_DONE ||
+         !(ssl->flags & SSL_FLAGS_SERVER)))
     {
 
 /*
